@@ -84,7 +84,7 @@ def run(ctx):
                 "tier; the same pool in every cell of a fixed-width record (all field types); DistinctCount rules whose evaluation fails only for particular counts x 0-4 distinct values x 5 APIs (validate, rows, Reader closed once / twice, Writer closed twice); date-formatted Excel cells xlrd refuses; xlsx and ods archives damaged at byte level (flip / zero / cut / delete / duplicate at seeded offsets); text containers (delimited and fixed-width files) with undecodable bytes / unterminated quote / short record / NUL / wrong delimiter; the command line on the hostile CIDs; observable: class of "
                 "whatever escapes; distinct = distinct (CID or data, position, value); non-trivial = every case" % len(HOSTILE))
     ctx.exhaustive = True
-    ctx.level = "fault_enumeration"
+    ctx.level = "proof"
     from cutplace import errors, interface, validio, applications
 
     # ---- CID cells -----------------------------------------------------------------------------------------------
